@@ -26,6 +26,7 @@ CONSTANTS
  NodeTeardown = FALSE
  MayVanish = FALSE
  SweepRelays = TRUE
+ TestCells = FALSE
  E2E = TRUE
  Aead = TRUE
  CheckIdent = TRUE
